@@ -125,6 +125,10 @@ func (m *Model) PullPositions(ctx context.Context, ops ...resource.ReadOption) <
 				all[change.Id] = change.NewValue.(*traits.OpenClosePosition)
 			}
 
+			if !change.SeedValue {
+				// updates only follow a complete seed: an empty collection has no seed events at all
+				seenAll = true
+			}
 			shouldSend := seenAll || (change.LastSeedValue && !readRequest.UpdatesOnly)
 			if change.LastSeedValue {
 				seenAll = true
